@@ -359,18 +359,19 @@ class Check(Property):
                     fixed.append(["meter"] * (k - 1) + [fv])
                     fixed.append([fv] * k)
             for trial in range(6 + len(fixed)):
-                nargs = rng.randint(nreq, len(params))
-                args = []
-                for p in params[:nargs]:
-                    if p.name in ("msg", "extra_msg", "dim1", "dim2", "name"):
-                        args.append(rng.choice(["some text", "", "[length]"]))
-                    elif p.name == "definition_type":
-                        args.append(rng.choice([str, int, pint.Unit]))
-                    else:
-                        args.append(rng.choice(pool))
                 if trial >= 6:
-                    fx = fixed[trial - 6]
+                    fx = fixed[trial - 6]       # (no random draw: the stream of the random trials is the same as before)
                     args = [fx[i] if params[i].name != "definition_type" else str for i in range(len(fx))]
+                else:
+                    nargs = rng.randint(nreq, len(params))
+                    args = []
+                    for p in params[:nargs]:
+                        if p.name in ("msg", "extra_msg", "dim1", "dim2", "name"):
+                            args.append(rng.choice(["some text", "", "[length]"]))
+                        elif p.name == "definition_type":
+                            args.append(rng.choice([str, int, pint.Unit]))
+                        else:
+                            args.append(rng.choice(pool))
                 try:
                     e = cls(*args)
                     str(e)
